@@ -50,7 +50,8 @@ def budget(tier):
 def gen_spelling(rng, scratch_depth_hint=2):
     style = rng.choice(["dotdot", "dotdot", "dotdot_deep", "absolute",
                         "absolute", "inside_odd", "dotdot_then_in",
-                        "sibling_prefix", "absolute_norm"])
+                        "sibling_prefix", "absolute_norm",
+                        "absolute_double_slash", "absolute_sibling_prefix"])
     comps = ["a", "b", "x y", "déjà", "train", "."]
     if style == "dotdot":
         parts = [".."] * rng.randrange(1, 4) + [rng.choice(["decoy", "outer"])]
@@ -65,11 +66,16 @@ def gen_spelling(rng, scratch_depth_hint=2):
         parts = [rng.choice(comps), "", rng.choice(comps), ".", "q"]
     elif style == "sibling_prefix":
         parts = ["..", "root_evil", "x"]
+    elif style == "absolute_sibling_prefix":
+        # an absolute path into a sibling whose name extends the root's name
+        parts = ["ABSROOT_evil", rng.choice(["x", "deep"])]
     else:
         parts = ["ABS"] + [rng.choice(["decoy", "outer_abs", "a"])
                            for _ in range(rng.randrange(1, 3))]
         if style == "absolute_norm":
             parts.insert(1, ".")
+        if style == "absolute_double_slash":
+            parts[0] = "ABS2"
     sep = rng.choice(["/", "/", "//"])
     return {"style": style, "parts": parts, "sep": sep}
 
@@ -78,9 +84,12 @@ def render(sp, scratch, base_dir):
     """The string stored in the field (ABS -> an absolute prefix inside the
     scratch area but outside the root)."""
     parts = list(sp["parts"])
-    if parts and parts[0] == "ABS":
-        return os.path.join(scratch, "abs_area") + "/" + sp["sep"].join(
-            parts[1:])
+    if parts and parts[0] == "ABSROOT_evil":
+        return base_dir + "_evil/" + sp["sep"].join(parts[1:])
+    if parts and parts[0] in ("ABS", "ABS2"):
+        lead = "/" if parts[0] == "ABS2" else ""  # exactly two slashes
+        return lead + os.path.join(scratch, "abs_area") + "/" + sp[
+            "sep"].join(parts[1:])
     return sp["sep"].join(parts)
 
 
@@ -291,7 +300,7 @@ def run_case(case):
                                 split=split)
                     attempt("continue_writing", cont)
         key = {"engine": "E-read", "field": field,
-               "absolute": sp["parts"][0] == "ABS"}
+               "absolute": sp["parts"][0].startswith("ABS")}
         if outside_reads:
             out.update(ok=False, vclass="read_outside_root", key=key,
                        detail=f"field {field} = {stored!r}: opened "
